@@ -233,7 +233,7 @@ func watchSummary(ws []kit.WatchCall) string {
 func init() {
 	register("E5", func(tier string, seed uint64) []Case {
 		var cases []Case
-		nh := tierPick(tier, 1, 100)
+		nh := tierPick(tier, 1, 300)
 		for h := 0; h < nh; h++ {
 			hs := kit.Mix(seed, uint64(h)) % 100000
 			for pos := 0; pos <= 12; pos++ {
